@@ -88,6 +88,7 @@ func (f *Lte) Call(s *slip.Scope, args slip.List, depth int) slip.Object {
 		case slip.Complex:
 			slip.TypePanic(s, depth, "numbers", arg, "real")
 		}
+		target = args[pos]
 	}
 	return slip.True
 }
